@@ -34,7 +34,8 @@ def _norm(e) -> str:
 def run(chk, repo: Repo):
     chk.rule("C04-R1", "setter function named like its property; getter returns a field the setter assigns", floor=40)
     chk.rule("C04-R2", "cdf of product-form families: product of component CDFs; 0 outside the support; Gaussian tail functions take the deviation in their own units (erf: sqrt(2) sigma, ndtr: sigma)", floor=5)
-    chk.rule("C04-R3", "Gaussian canonical form: setters, helpers' definite assignment, prec = sqrtprec.T @ sqrtprec, left re-signing only, canonical use of the precision", floor=14)
+    chk.rule("C04-R3", "Gaussian canonical form: setters, helpers' definite assignment, prec = sqrtprec.T @ sqrtprec, left re-signing only, canonical use of the precision; "
+                       "every conversion helper returns the power of the covariance scale its name promises (sqrtprec: -1/2, sqrtcov: 1/2, prec: -1, cov: 1) on every path", floor=14)
     chk.rule("C04-R4", "logdet polarity and rank source agree across all branches of each helper", floor=40)
     chk.rule("C04-R5", "Gaussian.logpdf = constant (independent of x) + un-normalised log-density of x - mean through sqrtprec, on every path", floor=2)
     chk.rule("C04-R6", "product-form log-densities: no parameter-only term summed separately from the broadcast expression", floor=6)
